@@ -475,6 +475,33 @@ async fn run_case(addr: SocketAddr, certs: &Certs, t: &[&str]) -> anyhow::Result
             }
             Ok(format!("{verdict} probe=ok"))
         }
+        "lazy" => {
+            // one `Client` (one connection) holds <n> subscribers of topic A that it does not read, and a subscriber of topic B that
+            // it does read. A is flooded until its publisher is stuck. What is published on B still arrives.
+            let n: usize = t[2].parse()?;
+            let (ns, tp) = fresh();
+            let (nsb, tpb) = fresh();
+            let shared = crate::e2e::client(addr, certs, BackoffStrategy::constant().with_max_attempts(0)).await?;
+            let mut lazy = vec![];
+            for _ in 0..n { lazy.push(shared.subscriber(&format!("/{ns}/{tp}")).with_decoder(StringCodec).open().await?); }
+            let mut sub_b = shared.subscriber(&format!("/{nsb}/{tpb}")).with_decoder(StringCodec).open().await?;
+            tokio::time::sleep(Duration::from_millis(60)).await;
+            let other = crate::e2e::client(addr, certs, BackoffStrategy::constant().with_max_attempts(0)).await?;
+            let mut pub_b = other.publisher(&format!("/{nsb}/{tpb}")).with_encoder(StringCodec).open().await?;
+            pub_b.send("first".to_string()).await?;
+            let before = match tokio::time::timeout(Duration::from_secs(3), sub_b.next()).await { Ok(Some(Ok(m))) if m == "first" => "ok".to_string(), other => format!("FAILED:{}", format!("{other:?}").chars().take(40).collect::<String>().replace(' ', "_")) };
+            let mut pub_a = other.publisher(&format!("/{ns}/{tp}")).with_encoder(StringCodec).open().await?;
+            let chunk = "x".repeat(64 * 1024);
+            let mut stuck = 0;
+            for _ in 0..400 {
+                if tokio::time::timeout(Duration::from_millis(300), pub_a.send(chunk.clone())).await.is_err() { stuck += 1; } else { stuck = 0; }
+                if stuck >= 4 { break; }
+            }
+            pub_b.send("second".to_string()).await?;
+            let after = match tokio::time::timeout(Duration::from_secs(6), sub_b.next()).await { Ok(Some(Ok(m))) if m == "second" => "ok".to_string(), Err(_) => "FAILED:nothing_arrived".to_string(), other => format!("FAILED:{}", format!("{other:?}").chars().take(40).collect::<String>().replace(' ', "_")) };
+            drop(lazy);
+            Ok(format!("before={before} probe={after}"))
+        }
         "stall" | "stall1" => {
             let n: usize = t[2].parse()?;
             let (ns, tp) = fresh();
@@ -610,6 +637,7 @@ pub fn run_named(cfg: &Cfg, name: &str) {
         cases.push("reg race 8 30".into());
         cases.push("reg pipeline RP".into());
         cases.push("reg pipeline RQ".into());
+        cases.push("reg lazy 9".into());
         cases.push("reg stall 130".into());
         // the same against a server that has a single worker thread
         cases.push("reg stall1 130".into());
@@ -655,10 +683,10 @@ pub fn run_named(cfg: &Cfg, name: &str) {
                 let probe_ok = line.split(' ').filter(|x| x.contains('=') && ["probe", "queued-peer", "blocked-publisher", "other-names", "queued-peer-later", "same-client"].contains(&x.split('=').next().unwrap())).all(|x| x.ends_with("=ok"));
                 // whom a dead probe speaks for: a topic left unusable (C11); for the stall scenario other topics (C17); a replier
                 // slot that a dead registration keeps occupied (C10)
-                let tag = if t[1] == "stall" || t[1] == "stall1" || t[1] == "mute" { "C11/C17" } else if t[1] == "abandon" && t[2] == "RR" { "C10/C11" } else { "C11" };
+                let tag = if t[1] == "stall" || t[1] == "stall1" || t[1] == "mute" || t[1] == "lazy" { "C11/C17" } else if t[1] == "abandon" && t[2] == "RR" { "C10/C11" } else { "C11" };
                 if !probe_ok { dead = line.contains("hang"); m = Err(format!("{tag}: after `{}` well-behaved clients are no longer served: {line}", t[1..].join(" ").chars().take(80).collect::<String>())); }
                 if m.is_ok() {
-                    let answers: Vec<&str> = line.split(' ').filter(|x| !x.starts_with("probe=") && !x.starts_with("queued-peer=") && !x.starts_with("blocked-publisher=") && !x.starts_with("other-names=") && !x.starts_with("queued-peer-later=") && !x.starts_with("same-client=") && !x.starts_with("a=") && !x.starts_with("b=") && !x.starts_with("got=") && !x.starts_with("lib=")).collect();
+                    let answers: Vec<&str> = line.split(' ').filter(|x| !x.starts_with("probe=") && !x.starts_with("queued-peer=") && !x.starts_with("blocked-publisher=") && !x.starts_with("other-names=") && !x.starts_with("queued-peer-later=") && !x.starts_with("same-client=") && !x.starts_with("before=") && !x.starts_with("a=") && !x.starts_with("b=") && !x.starts_with("got=") && !x.starts_with("lib=")).collect();
                     for a in &answers {
                         if *a == "timeout" { m = Err(format!("C11: a stream was neither served nor refused nor closed: {line}")); }
                     }
